@@ -303,6 +303,12 @@ func TestC02Pinned(t *testing.T) {
 			}
 		}
 	}
+	// legacy, concurrent writer, two and more incompressible 8 MiB blocks in flight
+	for _, wconc := range []int{1, 4} {
+		c := c02Case{Opts: wopts{BS: 4, Conc: wconc, Legacy: true}, Data: gen.Data{Segs: []gen.Seg{{K: "rand", N: 17<<20 + 100, S: 31}}},
+			Del: delivery{Mode: "write", Chunks: []int{3 << 20}, Flush: []bool{false}}, R: rcfg{Conc: 4, WriteTo: true}}
+		pinned(t, "C02", "C02/roundtrip", c, runC02)
+	}
 	// 4 MiB blocks
 	c := c02Case{Opts: wopts{BS: 7, ContentSum: true, Conc: 2}, Data: gen.Data{Segs: []gen.Seg{{K: "text", N: 4<<20 + 1, S: 5, P: 4}}},
 		Del: delivery{Mode: "write", Chunks: []int{4 << 20}, Flush: []bool{false}}, R: rcfg{Conc: 2, WriteTo: true}}
